@@ -92,7 +92,10 @@ def _parse_docstring(
         params = tuple()
 
     line_no = LineNumbers(source)
-    start = source.index(docstring)
+    # the value of a docstring containing escape sequences (`\\n`, `\\t`, ...) is
+    # not a substring of the source; error positions are then relative to
+    # the start of the file
+    start = max(source.find(docstring), 0)
 
     translate_map = {"return": "returns", "dev": "details", "param": "params"}
 
